@@ -158,13 +158,28 @@ func check(c Case) pbt.Verdict {
 		}
 		relative = true
 	}
-	ctx, cancel := context.WithTimeout(context.Background(), 20*time.Second)
+	budget := 20 * time.Second
+	if relative {
+		// not screened for termination by the reference interpreter: a program that runs long is not compared
+		budget = 3 * time.Second
+		if c.Repeat > 20 {
+			c.Repeat = 20
+		}
+	}
+	ctx, cancel := context.WithTimeout(context.Background(), budget)
 	defer cancel()
 
 	// run A: no stepper
 	lisp.Stepper = nil
 	lisp.VerifResetStepper()
+	started := time.Now()
 	a := run(ctx, c, nil)
+	if relative && (time.Since(started) > time.Second || (a.r.Err != nil && strings.Contains(a.r.Err.Error(), "timeout"))) {
+		return pbt.Verdict{Excluded: "model-unspecified-and-long-running", Labels: []string{"excluded:" + why + " (long running)"}}
+	}
+	ctx2, cancel2 := context.WithTimeout(context.Background(), 20*time.Second)
+	defer cancel2()
+	ctx = ctx2
 	if a.r.Panicked {
 		return pbt.Failf("panic:"+a.r.PanicSite, "plain run panicked: %v\nprogram:\n%s", a.r.PanicVal, c.Text())
 	}
